@@ -167,6 +167,16 @@ def replace_term(text: str, term: str, repl: str) -> str:
     return text.replace(term, repl)
 
 
+def plain(text: str) -> str:
+    """Atom text without the version suffixes (for pattern tests on facts)."""
+    return _TOKEN.sub(lambda m: m.group(1), text)
+
+
+def world_has(w: "World", pol: bool, pred) -> bool:
+    """Some literal fact of polarity pol whose plain text satisfies pred."""
+    return any(f[0] == "lit" and f[2] == pol and pred(plain(f[1])) for f in w.facts)
+
+
 def show_text(text: str) -> str:
     return re.sub("\x00(\\w+)\x00", r"$\1", text)
 
